@@ -4,7 +4,7 @@
    The trailing `true` is the bounds flag.  Hence C12_simulate_linear_model_spec / lss_simulate_dynamics of C12/Props.v
    speak about the current text of the kernel. *)
 From Coq Require Import ZArith QArith List Bool.
-From QE Require Import Base.Num Gen.Kernels Gen.Kernels2 Gen.Kernels3 Base.PivotTie Base.LinAlg C12.Model C12.TieGen.
+From QE Require Import Base.Num Gen.Kernels Gen.Kernels2 Gen.Kernels3 Base.GenLemmas Base.LinAlg C12.Model C12.TieGen.
 Import ListNotations.
 
 Theorem C12_tie_simulate_linear_model :
